@@ -150,9 +150,12 @@ impl SDJWTHolder {
                 .clone()
                 .ok_or(Error::InvalidState("Cannot take SDJWTJson".to_string()))?;
             sd_jwt_json.disclosures = self.hs_disclosures.clone();
-            if !self.serialized_key_binding_jwt.is_empty() {
-                sd_jwt_json.kb_jwt = Some(self.serialized_key_binding_jwt.clone());
-            }
+            // a KB-JWT that came with the input belongs to that presentation, not to this one
+            sd_jwt_json.kb_jwt = if self.serialized_key_binding_jwt.is_empty() {
+                None
+            } else {
+                Some(self.serialized_key_binding_jwt.clone())
+            };
             serde_json::to_string(&sd_jwt_json)
                 .map_err(|e| Error::DeserializationError(e.to_string()))?
         };
